@@ -348,3 +348,14 @@ theorem nonvacuous_Equals_generated :
   decide
 
 end Ytk.C05
+
+/-! ## xlate7d: `SameAs` of the three kinds and its method table, regenerated -/
+namespace Ytk.C05
+open Ytk.Generated
+
+/-- `x.SameAs(y)` through the interface is the model's `sameAs` (kind equality); `false` for nil -/
+theorem SameAs_generated_eq_model (x y : Node) :
+    FuncsDom.SameAs x (some y) = .ok (sameAs x y) ∧ FuncsDom.SameAs x none = .ok false := by
+  cases x <;> cases y <;> exact ⟨rfl, rfl⟩
+
+end Ytk.C05
